@@ -68,6 +68,7 @@ func propC12(a *Analysis, r *Registry) {
 	X := b.X
 	S := X.S
 	const rB = "B-C12 formula"
+	X.NoInline["stats.series"] = true
 	X.NoInline["stats.(*KDE).PDF$1"] = true
 	X.NoInline["stats.(*KDE).CDF$1"] = true
 	for _, n := range []string{"stats.(*KDE).PDF", "stats.(*KDE).CDF", "stats.(*KDE).Bounds"} {
